@@ -122,7 +122,7 @@ class Gen:
         def const():
             # now and then ONE operand of and / or is a CONSTANT (and_(c, flag) / and_(c, not_(flag)) with a Python bool - and_ / or_
             # document SymbolicExpression | bool): read as a boolean.  Every generated condition still mentions a variable.
-            if self.p_lit > 0 and self.rng.random() < 0.06:
+            if self.p_lit > 0 and getattr(self, 'consts', True) and self.rng.random() < 0.06:
                 k = ['truth', ['lit', self.rng.choice([True, False, False])]]
                 return ['not', k, 'fn'] if self.neg and self.rng.random() < 0.3 else k
             return None
@@ -436,6 +436,11 @@ def wrap_subs(rng, c, p=0.35):
     return c
 
 
+def term_keys_of(t):
+    from qcase import term_keys
+    return term_keys(t, set())
+
+
 def gen_case_sub(rng, tier):
     nv = rng.choice([1, 2, 2, 3])
     c = gen_case(rng, nvars=nv, falsy=True, neg=False, maxdepth=3, select=rng.choice(['all', 'some']), dom_max=3)
@@ -467,6 +472,15 @@ def gen_case_sub(rng, tier):
         gi.keys = [i]
         ci = gi.cond(rng.randint(0, 1))
         outer = rng.choice([d[0] for d in c['doms'] if d[0] != i])
+        if rng.random() < 0.35:
+            # the sub-query holds a DISJUNCTION (its right-branch rows pass a de-duplication inside the sub-query) and the variable its
+            # solutions are compared with is NOT selected: the solutions are compared with one value of that variable after the other
+            ci = ['or', gi.cond(0), gi.cond(0), rng.choice(['fn', 'op'])]
+            others = [t for t in c['sel'] if outer not in term_keys_of(t)]
+            c['sel'] = others or [['lit', 1]] if False else (others if others else c['sel'])
+            for d in c['doms']:
+                if d[0] == outer and len(d[1]) < 2:
+                    d[1] = rng.sample(range(nobj), min(nobj, rng.randint(2, 3)))
         lhs = ['map', ['f', F[rng.choice('ab')]], ['var', outer]]
         sub = ['subq', i, ci, ['map', ['f', F[rng.choice('ab')]], ['var', i]]]
         the_operand = rng.random() < 0.4
